@@ -108,16 +108,17 @@ def scenarios(quick):
             (T.chain2(maxseq=5), 'SpecPrompt', B, dict(st, victims=['K']), 'C04_Tight5')] +
            ([] if quick else [
                (T.chain2(maxseq=6), 'SpecPrompt', B, dict(st, victims=['K']), 'C04_Tight5'),
-               (T.chain3(maxseq=6), 'SpecZL', B, dict(st, victims=['A']), 'C04_Tight6'),
-               (T.chain3(maxseq=4), 'SpecPrompt', B, dict(st, victims=['K']), 'C04_Tight6')]),
+               (T.chain3(maxseq=6), 'SpecZL', B, dict(st, victims=['A']), 'C04_Tight6')]),
         # `requested` not cleared on publish: shows with a second consumer whose requests keep triggering the recomputation
-        mut=[] if quick else [(T.tee(maxseq=9), 'SpecZL', ['no_clear_req'], dict(pq=14, lq=6), dict(st, victims=['B'], sim=(200000, 400)), 'C04_Tight6')],
+        mut=[] if quick else [(T.tee(maxseq=9), 'SpecZL', ['no_clear_req'], dict(pq=14, lq=6), dict(st, victims=['B'], sim=(30000, 400)), 'C04_Tight6')],
         conf=[(T.chain3(maxseq=6), 'SpecPrompt', 8 if quick else 80, 300, dict(max_faults=1, fault_kinds=['stall'], victims=['K', 'A']))],
         stall=[(T.chain2(maxseq=40), 'K', 6 if quick else 100, 1500, 'sole'),
                (T.tee(maxseq=40), 'B', 6 if quick else 100, 2000, 'one-of-two'),
                (T.chain3(maxseq=40), 'K', 6 if quick else 100, 2000, 'behind-relay'),
                (T.chain3(maxseq=40), 'A', 6 if quick else 100, 2000, 'relay'),
                (T.chain3(maxseq=40, slow=True), 'K', 4 if quick else 60, 2500, 'slow-relay'),
+               # the stalled consumer lists an ephemeral source before the synchronized one (request flags must not leak)
+               (T.eph_first(maxseq=40), 'K', 4 if quick else 60, 2000, 'eph-first'),
                # a producer slower than the request interval: the consumer's periodic re-requests must be collapsed, not queued
                (T.chain2(maxseq=60, slow_origin=True), 'K', 6 if quick else 60, 3000, 'slow-producer')],
     )
